@@ -210,8 +210,9 @@ Section Ok.
     forallb (fun e => forallb (fun g => negb (f_tag g =? deftag_of S (TNamed (snd e)))) fl) OBJS.
 
   Definition import_request_ok (d : tdef) : bool :=
-    match t_fields d with
-    | [f0; f1; f2; f3; f4] =>
+    match t_fields d, find_tdef S "kmip.Attribute" with
+    | [f0; f1; f2; f3; f4], Some da =>
+      attribute_ok da && ty_eqb (f_ty f3) (TSlice (TNamed "kmip.Attribute")) &&
       negb (t_custom_enc d) && pos_field f0 && pos_field f1 && pos_field f2 && pos_field f3 &&
       negb (f_omit f0) && f_omit f1 && f_omit f2 && negb (f_omit f3) &&
       (f_tag f4 =? 0) && (match f_ty f4 with TIface _ => true | _ => false end) &&
@@ -220,7 +221,7 @@ Section Ok.
          enc_kind_ok k0 && omit_scalar_ok (f_ty f1) && omit_scalar_ok (f_ty f2) && elem_ok (f_ty f3)
        | _, _, _, _ => false end) &&
       forallb (fun e => tags_distinct [f_tag f0; f_tag f1; f_tag f2; f_tag f3; deftag_of S (TNamed (snd e))]) OBJS
-    | _ => false
+    | _, _ => false
     end.
 
   (** which shape a hand-written decoder demands *)
